@@ -234,13 +234,16 @@ class FakeConn:
     def write(self, data):
         if self.closed:
             raise OSError("write on closed connection")
+        if self.fail_next_write:
+            self.fail_next_write = False
+            raise OSError("device error on write (harness)")
         self._world.wire.append(data.decode("utf-8", "surrogatepass") if isinstance(data, bytes) else data)
 
     def close(self):
         self.closed = True
 
     def verif_state(self):
-        return (self.closed,)
+        return (self.closed, self.fail_next_write)
 
 
 class _CauseDeque(collections.deque):
@@ -532,7 +535,20 @@ class World:
                 self.cur_cause = ("rx", ev[2])
                 self.deliver(ev[2])
             elif kind == "set":
-                obs.ret = self.gw.set_child_value(ev[1], ev[2], ev[3], ev[4])
+                obs.ret = self.gw.set_child_value(ev[1], ev[2], ev[3], ev[4], **(dict(ev[5]) if len(ev) > 5 else {}))
+            elif kind == "writefail":
+                # the next write on the current connection raises OSError (cable pulled, device error)
+                if self.conn is not None and not self.conn.closed:
+                    self.conn.fail_next_write = True
+            elif kind == "reconnect":
+                # the (recorded, never run) connect thread the library started after a loss succeeds now
+                proto = self.gw.tasks.transport.protocol
+                pending = [t for t in self.threads if t.started and not getattr(t, "consumed", False)]
+                if proto is not None and pending and (self.conn is None or self.conn.closed):
+                    for t in pending:
+                        t.consumed = True
+                    self.conn = FakeConn(self)
+                    proto.connection_made(self.conn)
             elif kind == "fw":
                 nids = list(ev[1]) if isinstance(ev[1], (tuple, list)) else ev[1]
                 path = self.fw_path(ev[4]) if ev[4] is not None else None
@@ -660,6 +676,7 @@ class World:
             ("files", tuple((n, canon.digest(b).hex()) for n, b in self.files())),
             ("clock", self.epoch, self.utc_offset),
             ("pstarted", getattr(self, "pstarted", None)),
+            ("connect_threads_pending", sum(1 for t in self.threads if t.started and not getattr(t, "consumed", False)) > 0),
             ("dead", repr(self.dead)),
             ("extra", extra),
         )
